@@ -99,6 +99,12 @@ struct C02Monitor {
     prev_ent: BTreeMap<(String, String), ResourceSet>,
     /// issuer -> (key id -> certified resources) at the previous observation
     prev_held: BTreeMap<String, BTreeMap<String, ResourceSet>>,
+    /// issuer -> (key id -> what the key's certificate held at EVERY
+    /// observation since the issuer's last publication, i.e. the running
+    /// intersection): a certificate of the issuer that shrank and grew again
+    /// between two of its publications has cut the children's certificates
+    /// down to the smallest value in between
+    held_min_since_pub: BTreeMap<String, BTreeMap<String, ResourceSet>>,
 }
 
 impl C02Monitor {
@@ -205,6 +211,14 @@ impl C02Monitor {
             for (ch, e) in ent_now {
                 self.prev_ent.insert((issuer.clone(), ch), e);
             }
+            let mins = self.held_min_since_pub.entry(issuer.clone()).or_default();
+            for (aki, res) in &held_map {
+                let v = match mins.get(aki) {
+                    Some(m) => m.intersection(res),
+                    None => res.clone(),
+                };
+                mins.insert(aki.clone(), v);
+            }
             self.prev_held.insert(issuer.clone(), held_map);
         }
         issues
@@ -285,9 +299,13 @@ impl C02Monitor {
                     if hk_now == hk_then || hk_now.contains(hk_then) {
                         continue
                     }
+                    let hk_min = self.held_min_since_pub.get(issuer)
+                        .and_then(|m| m.get(&pc.aki))
+                        .map(|m| m.intersection(hk_now))
+                        .unwrap_or_else(|| hk_now.clone());
                     let expected_min = pc.resources
                         .intersection(&info.entitled_resources)
-                        .intersection(hk_now);
+                        .intersection(&hk_min);
                     r.count("replacement_checks", 1);
                     r.nontrivial(format!(
                         "shrink|{}|{}|{}", active_union,
@@ -321,6 +339,7 @@ impl C02Monitor {
                 }
             }
         }
+        self.held_min_since_pub.insert(issuer.to_string(), held_map.clone());
         self.prev.insert(issuer.to_string(), PrevPub {
             active_union, held_map, certs, child_keys,
         });
